@@ -446,6 +446,7 @@ func runC15(r *vf.Run) {
 	})
 	c15Positional(r, dir)
 	c15GobCount(r, dir)
+	c15ChildProcess(r, dir)
 	// special paths
 	specials := []struct {
 		name  string
